@@ -766,6 +766,13 @@ class ComponentRefFlattener(TreeListener):
         if self.depth > self.cutoff_depth:
             return
 
+        if self.instance_prefix and CLASS_SEPARATOR in tree.name:
+            # Already flattened at a deeper level (only flattening puts a
+            # separator into a name); prefixing it again could hit an unrelated
+            # symbol, e.g. "a." + "a.b.k".
+            self.cutoff_depth = self.depth
+            return
+
         # Compose flatted name
         new_name = self.instance_prefix + tree.name
         c = tree
